@@ -4,9 +4,9 @@ from vflib import oschecks
 
 def run(tier, only=None):
     q = [
-        {"name": "c17.managed", "cfile": "glue_c17.c", "mem_buffer": 40, "stubs": True,
-         "defs": ["-DSCENARIO=0", "-DGLUE_MANAGED", "-DGLUE_NOWRITE", "-DKMAX=2", "-DNPROG=2", "-DLMAX=13", "-DOS_MAXOBJ=160", "-DGBUF=8"],
-         "timeout": 1500},
+        {"name": "c17.managed.%s" % mname, "cfile": "glue_c17.c", "mem_buffer": 40, "stubs": True,
+         "defs": ["-DSCENARIO=0", "-DGLUE_MANAGED", "-DGLUE_NOWRITE", "-DKMAX=2", "-DNPROG=2", "-DLMAX=13", "-DOS_MAXOBJ=160", "-DGBUF=8", "-DMODEFIX=%d" % mode],
+         "timeout": 800 if tier == "quick" else 3000} for mode, mname in ((0, "plain"), (1, "fitting"), (2, "counting"))] + [
         {"name": "c17.external", "cfile": "glue_c17.c", "mem_buffer": 40, "stubs": True,
          "defs": ["-DSCENARIO=1", "-DGLUE_MANAGED", "-DGLUE_NOWRITE", "-DKMAX=1", "-DNPROG=1", "-DOS_MAXOBJ=160", "-DGBUF=8"]},
         {"name": "c17.file", "cfile": "glue_c17.c", "mem_buffer": 40, "stubs": True, "replace": oschecks.REC,
